@@ -119,7 +119,7 @@ def _summary(v):
     return ('value', repr(v))
 
 
-def kernel_histories(repo: Repo, fis, binned: bool = False):
+def kernel_histories(repo: Repo, fis, binned: bool = False, cross: bool = True):
     """Two-call histories of the kernels, interpreted in one world each (sa.kernel.run_history): every kernel after every kernel
     (first units), and every kernel after itself with other units, another precision, and the same units again.  A history is a
     problem when what the second call returns or raises differs from what it does in a fresh interpreter.
@@ -157,19 +157,22 @@ def kernel_histories(repo: Repo, fis, binned: bool = False):
     SVar._next = 0
     histories = []
     for fb in fis:
-        for fa in fis:
+        for fa in (fis if cross else [fb]):
             histories.append((fa, (0, False), fb, (0, False)))
-        for ca, cb in (((0, False), (1, False)), ((1, False), (0, False)), ((0, False), (0, True)), ((0, True), (0, False))):
+        for ca, cb in (((0, False), (1, False)), ((1, False), (0, False)), ((0, False), (0, True)), ((0, True), (0, False)),
+                       ((0, True), (1, True)), ((1, True), (0, True))):
             histories.append((fb, ca, fb, cb))
-    for fa, ca, fb, cb in histories:
+    for fb in fis:
+        histories.append((fb, (0, False), fb, (0, False), 'same objects, updated in place'))
+    for fa, ca, fb, cb, *how in histories:
         first, second = config(fa, *ca), config(fb, *cb)
         want = fresh(fb, cb, second)
-        got = observe(run_history(repo, [(fa, first[0], first[1], ''), (fb, second[0], second[1], "'")], binned, keep_table=True))
+        got = observe(run_history(repo, [(fa, first[0], first[1], ''), (fb, second[0], second[1], "'", *how)], binned, keep_table=True))
         n += 1
         if got != want:
             problems.setdefault(fb.fq, []).append({
                 'history': [f'{fa.qualname}(units {ca[0] + 1}{", float32 data" if ca[1] else ""})',
-                            f'{fb.qualname}(units {cb[0] + 1}{", float32 data" if cb[1] else ""})'],
+                            f'{fb.qualname}(units {cb[0] + 1}{", float32 data" if cb[1] else ""}' + (f'; {how[0]}' if how else '') + ')'],
                 'second_call_in_a_fresh_interpreter': sorted(map(repr, want))[:2], 'second_call_after_the_first': sorted(map(repr, got))[:2]})
     return problems, n
 
